@@ -4,6 +4,9 @@ use acme_common::crypto::{
 };
 use acme_common::logs::{set_log_system, DEFAULT_LOG_LEVEL};
 use acme_common::{clean_pid_file, init_server};
+#[cfg(feature = "breard_r_acmed_verif")]
+use crate::verif::RwLock;
+#[cfg(not(feature = "breard_r_acmed_verif"))]
 use async_lock::RwLock;
 use clap::{Arg, ArgAction, Command};
 use log::error;
@@ -24,6 +27,8 @@ mod logs;
 mod main_event_loop;
 mod storage;
 mod template;
+#[cfg(feature = "breard_r_acmed_verif")]
+mod verif;
 
 pub const APP_NAME: &str = "ACMEd";
 pub const APP_THREAD_NAME: &str = "acmed-runtime";
@@ -65,6 +70,10 @@ fn main() {
 }
 
 async fn inner_main() {
+	#[cfg(feature = "breard_r_acmed_verif")]
+	if crate::verif::run_probe().await {
+		return;
+	}
 	let full_version = format!(
 		"{APP_VERSION} built for {}\n\nCryptographic library:\n - {} {}\nHTTP client library:\n - {} {}",
 		env!("ACMED_TARGET"),
